@@ -1,5 +1,5 @@
 INIT InitSlug
-NEXT Next
+NEXT NextSlug
 CONSTANTS SlugLen = 4
 INVARIANT SlugAlphabet
 INVARIANT SlugSingleHyphens
